@@ -20,15 +20,17 @@ EXPLANATION = ('mean/var/std involve division by n and a square root: the model 
 def generate(rng, n, tier, stats):
     cases = []
     while len(cases) < n:
-        if rng.random() < 0.06:
-            nd = rng.randint(1, 3)
-            a = rand_array(rng, stats=stats, dtype='f', ndim=nd, lens=[rng.randint(1, 4) for _ in range(nd)], attrs=True)
+        if rng.random() < 0.1:
+            nd = rng.randint(1, 4)
+            a = rand_array(rng, stats=stats, dtype='f', ndim=nd, lens=[rng.randint(1, 4) if nd < 3 else rng.randint(2, 3) for _ in range(nd)], attrs=True)
             i = rng.randrange(nd)
             q = rng.choice([50, 25, [25, 50], [0, 100, 50]])
             stats['function']['percentile'] += 1
             r_ = a['dims'][i] if rng.random() < 0.5 else i
-            if nd >= 2 and not isinstance(q, list) and rng.random() < 0.35:
+            if nd >= 2 and not isinstance(q, list) and rng.random() < 0.5:
                 r_ = rng.sample(a['dims'], rng.randint(2, nd))       # "a tuple of dimensions reduces over all of them at once"
+                if nd >= 3 and rng.random() < 0.5:                   # the first dimension stays: the group is not at position 0
+                    r_ = rng.sample(a['dims'][1:], rng.randint(2, nd - 1))
                 stats['percentile_axis']['tuple'] += 1
             cases.append({'ins': [a], 'ops': [['percentile', q, r_]]})
             continue
